@@ -6,6 +6,7 @@ package main
 
 import (
 	"fmt"
+	"os"
 	"go/token"
 	"go/types"
 	"strings"
@@ -29,6 +30,9 @@ func exprStrD(v ssa.Value, d int) string {
 		}
 		return x.Value.ExactString()
 	case *ssa.Parameter:
+		if s, ok := exprEnv[x]; ok {
+			return s
+		}
 		return x.Name()
 	case *ssa.FreeVar:
 		return x.Name()
@@ -75,9 +79,15 @@ func exprStrD(v ssa.Value, d int) string {
 		for _, ref := range *x.Referrers() {
 			if st, ok := ref.(*ssa.Store); ok && st.Addr == x {
 				if p, ok := st.Val.(*ssa.Parameter); ok {
+					if s, ok := exprEnv[p]; ok {
+						return s
+					}
 					return p.Name()
 				}
 			}
+		}
+		if v := singleAssigned(x); v != nil {
+			return exprStrD(v, d+1)
 		}
 		if x.Comment != "" {
 			return x.Comment
@@ -95,6 +105,17 @@ func exprStrD(v ssa.Value, d int) string {
 			return b.Name() + "(" + strings.Join(as, ", ") + ")"
 		}
 		if sc := x.Call.StaticCallee(); sc != nil {
+			if inner := forwardedCall(sc); exprInlineForwarders && inner != nil && len(as) == len(sc.Params) {
+				// m.ReplacementText() is m.Replacement.GetValueOrDefault(""): a method that only hands on a call prints as that call
+				for i, p := range sc.Params {
+					exprEnv[p] = as[i]
+				}
+				out := exprStrD(inner, d+1)
+				for _, p := range sc.Params {
+					delete(exprEnv, p)
+				}
+				return out
+			}
 			name := sc.Name()
 			if i := strings.Index(name, "["); i > 0 {
 				name = name[:i]
@@ -308,4 +329,119 @@ func embeddedField(t types.Type, i int) bool {
 	}
 	_, isStruct := deref(st.Field(i).Type()).Underlying().(*types.Struct)
 	return isStruct
+}
+
+// exprInlineForwarders: print a call of a forwarding method as the call it hands on. Off by default, because the rules that name
+// their anchors (Reader.ReadAt, ...) must keep seeing those names; the rules that compare what a value IS turn it on.
+var exprInlineForwarders = false
+
+func withForwarders() func() {
+	old := exprInlineForwarders
+	exprInlineForwarders = true
+	return func() { exprInlineForwarders = old }
+}
+
+// exprEnv holds, while a forwarding method is printed in place of a call to it, what its parameters stand for at that call.
+var exprEnv = map[*ssa.Parameter]string{}
+
+var forwardedMemo = map[*ssa.Function]*ssa.Call{}
+
+// forwardedCall: when fn is a repository function of one block that does nothing but return the result of one call whose
+// operands are its parameters, their fields and constants, that call; otherwise nil.
+func forwardedCall(fn *ssa.Function) *ssa.Call {
+	if c, ok := forwardedMemo[fn]; ok {
+		return c
+	}
+	forwardedMemo[fn] = nil
+	if len(fn.Blocks) != 1 || fn.Pkg == nil || !strings.HasPrefix(fn.Pkg.Pkg.Path(), modRoot) || fn.Signature.Results().Len() != 1 {
+		return nil
+	}
+	var call *ssa.Call
+	for _, in := range fn.Blocks[0].Instrs {
+		switch x := in.(type) {
+		case *ssa.Call:
+			if call != nil || x.Call.IsInvoke() || x.Call.StaticCallee() == nil {
+				return nil
+			}
+			call = x
+		case *ssa.FieldAddr, *ssa.Field, *ssa.DebugRef:
+		case *ssa.UnOp:
+			if x.Op != token.MUL {
+				return nil
+			}
+		case *ssa.Alloc:
+			// a spilled value receiver
+			for _, ref := range *x.Referrers() {
+				if st, ok := ref.(*ssa.Store); ok {
+					if _, isParam := st.Val.(*ssa.Parameter); !isParam {
+						return nil
+					}
+				}
+			}
+		case *ssa.Store:
+			if _, isParam := x.Val.(*ssa.Parameter); !isParam {
+				return nil
+			}
+			if _, isAlloc := x.Addr.(*ssa.Alloc); !isAlloc {
+				return nil
+			}
+		case *ssa.Return:
+			if call == nil || len(x.Results) != 1 || x.Results[0] != ssa.Value(call) {
+				return nil
+			}
+		default:
+			return nil
+		}
+	}
+	forwardedMemo[fn] = call
+	if os.Getenv("VORECHECK_DEBUG_FWD") != "" {
+		fmt.Fprintln(os.Stderr, "forwarder:", fn.String())
+	}
+	return call
+}
+
+// singleAssigned: a local that lives in memory only because a closure captures it, assigned exactly once and only read otherwise
+// (by the function and by the closures): the value assigned. nil when the local is written twice, or its address goes elsewhere.
+func singleAssigned(a *ssa.Alloc) ssa.Value {
+	var val ssa.Value
+	captured := false
+	for _, ref := range *a.Referrers() {
+		switch y := ref.(type) {
+		case *ssa.Store:
+			if y.Addr != ssa.Value(a) || val != nil {
+				return nil
+			}
+			val = y.Val
+		case *ssa.UnOp:
+			if y.Op != token.MUL {
+				return nil
+			}
+		case *ssa.DebugRef:
+		case *ssa.MakeClosure:
+			captured = true
+			fn, _ := y.Fn.(*ssa.Function)
+			if fn == nil {
+				return nil
+			}
+			for i, b := range y.Bindings {
+				if b != ssa.Value(a) || i >= len(fn.FreeVars) {
+					continue
+				}
+				for _, r2 := range *fn.FreeVars[i].Referrers() {
+					if u, ok := r2.(*ssa.UnOp); !ok || u.Op != token.MUL {
+						return nil
+					}
+				}
+			}
+		default:
+			return nil
+		}
+	}
+	if !captured {
+		return nil
+	}
+	if _, isParam := val.(*ssa.Parameter); isParam {
+		return nil // printed as the parameter by the caller
+	}
+	return val
 }
